@@ -1,7 +1,7 @@
 /-
 C17 helper development (no Mathlib): every item painted by `draw_stacking_context` carries the
 graphics environment of the call extended — opacity groups and transforms only ever grow as a
-suffix, the clip depth only grows.  Consequence: what a context paints is inside its own
+suffix, the stack of clip paths only grows.  Consequence: what a context paints is inside its own
 opacity group / transform / `clip` / viewport clip.
 -/
 import WpModel.Model.PaintOrder
@@ -13,15 +13,15 @@ open Wp Wp.Gen
 
 /-- `e ≤ f`: `f` is `e` with more groups / transforms appended and at least as many clips. -/
 def Env.le (e f : Env) : Prop :=
-  e.alphas <+: f.alphas ∧ e.transforms <+: f.transforms ∧ e.clips ≤ f.clips
+  e.alphas <+: f.alphas ∧ e.transforms <+: f.transforms ∧ e.clips <+: f.clips
 
-theorem Env.le_refl (e : Env) : e.le e := ⟨List.prefix_refl _, List.prefix_refl _, Nat.le_refl _⟩
+theorem Env.le_refl (e : Env) : e.le e := ⟨List.prefix_refl _, List.prefix_refl _, List.prefix_refl _⟩
 
 theorem Env.le_trans {e f g : Env} (h1 : e.le f) (h2 : f.le g) : e.le g :=
-  ⟨h1.1.trans h2.1, h1.2.1.trans h2.2.1, Nat.le_trans h1.2.2 h2.2.2⟩
+  ⟨h1.1.trans h2.1, h1.2.1.trans h2.2.1, h1.2.2.trans h2.2.2⟩
 
-theorem Env.le_clip (e : Env) : e.le e.clip :=
-  ⟨List.prefix_refl _, List.prefix_refl _, Nat.le_succ _⟩
+theorem Env.le_clip (e : Env) (c : Clip) : e.le (e.clip c) :=
+  ⟨List.prefix_refl _, List.prefix_refl _, List.prefix_append _ _⟩
 
 /-- All painted items of a list are in an environment extending `e`. -/
 def AllGe (e : Env) (l : List Item) : Prop :=
@@ -70,8 +70,8 @@ theorem allGe_drawBackground (role : Role) (id : Nat) (bg : Option (Option Nat))
   · exact AllGe.nil e
   · exact AllGe.nil e
   · split
-    · exact AllGe.single _ _ _ _ _ (Env.le_trans e.le_clip e.clip.le_clip)
-    · exact AllGe.single _ _ _ _ _ e.le_clip
+    · exact AllGe.single _ _ _ _ _ (Env.le_trans (e.le_clip _) ((e.clip _).le_clip _))
+    · exact AllGe.single _ _ _ _ _ (e.le_clip _)
 
 theorem allGe_drawBorder (a : Attrs) (e : Env) : AllGe e (drawBorder a e) := by
   unfold drawBorder
@@ -83,7 +83,7 @@ theorem allGe_drawBorder (a : Attrs) (e : Env) : AllGe e (drawBorder a e) := by
       · exact AllGe.single _ _ _ _ _ e.le_refl
       · intro it hit
         rcases List.eq_of_mem_replicate hit with rfl
-        exact e.le_clip
+        exact e.le_clip _
 
 theorem allGe_decoration (a : Attrs) (e : Env) : AllGe e (decoration a e) :=
   (allGe_drawBackground _ _ _ _ e).append (allGe_drawBorder a e)
@@ -100,41 +100,59 @@ theorem allGe_ownOutline (a : Attrs) (e : Env) : AllGe e (ownOutline a e) := by
   · split
     · intro it hit
       rcases List.eq_of_mem_replicate hit with rfl
-      exact e.le_clip
+      exact e.le_clip _
     · exact AllGe.nil e
   · exact AllGe.nil e
 
+theorem allGe_cellBackground (t : Attrs) (e : Env) (c : Node) : AllGe e (cellBackground t e c) := by
+  unfold cellBackground
+  split
+  · split
+    · exact allGe_drawBackground _ _ _ _ e
+    · exact AllGe.nil e
+  · exact allGe_attrErr e _
+
+theorem allGe_rowBackgrounds (t : Attrs) (e : Env) (r : Node) : AllGe e (rowBackgrounds t e r) := by
+  unfold rowBackgrounds
+  split
+  · exact (allGe_drawBackground _ _ _ _ e).append (AllGe.flatMap _ _ (fun c _ => allGe_cellBackground t e c))
+  · exact allGe_attrErr e _
+
+theorem allGe_groupBackgrounds (t : Attrs) (e : Env) (g : Node) : AllGe e (groupBackgrounds t e g) := by
+  unfold groupBackgrounds
+  split
+  · exact (allGe_drawBackground _ _ _ _ e).append (AllGe.flatMap _ _ (fun r _ => allGe_rowBackgrounds t e r))
+  · exact allGe_attrErr e _
+
+theorem allGe_cellBorder (e : Env) (c : Node) : AllGe e (cellBorder e c) := by
+  unfold cellBorder
+  split
+  · split
+    · exact allGe_drawBorder _ e
+    · exact AllGe.nil e
+  · exact allGe_attrErr e _
+
+theorem allGe_rowBorders (e : Env) (r : Node) : AllGe e (rowBorders e r) := by
+  unfold rowBorders
+  split
+  · exact AllGe.flatMap _ _ (fun c _ => allGe_cellBorder e c)
+  · exact allGe_attrErr e _
+
+theorem allGe_groupBorders (e : Env) (g : Node) : AllGe e (groupBorders e g) := by
+  unfold groupBorders
+  split
+  · exact AllGe.flatMap _ _ (fun r _ => allGe_rowBorders e r)
+  · exact allGe_attrErr e _
+
 theorem allGe_drawTable (t : Attrs) (groups : List Node) (e : Env) : AllGe e (drawTable t groups e) := by
-  unfold drawTable drawTableBackgrounds drawTableBorders
+  unfold drawTable drawTableBackgrounds drawTableBorders columnBackgrounds
   refine AllGe.append (AllGe.append (AllGe.append (allGe_drawBackground _ _ _ _ e) ?_) ?_) ?_
   · refine AllGe.flatMap _ _ (fun g _ => AllGe.append (allGe_drawBackground _ _ _ _ e) ?_)
     exact AllGe.flatMap _ _ (fun c _ => allGe_drawBackground _ _ _ _ e)
-  · refine AllGe.flatMap _ _ (fun g _ => ?_)
-    split
-    · refine AllGe.append (allGe_drawBackground _ _ _ _ e) (AllGe.flatMap _ _ (fun r _ => ?_))
-      split
-      · refine AllGe.append (allGe_drawBackground _ _ _ _ e) (AllGe.flatMap _ _ (fun c _ => ?_))
-        split
-        · split
-          · exact allGe_drawBackground _ _ _ _ e
-          · exact AllGe.nil e
-        · exact allGe_attrErr e _
-      · exact allGe_attrErr e _
-    · exact allGe_attrErr e _
+  · exact AllGe.flatMap _ _ (fun g _ => allGe_groupBackgrounds t e g)
   · split
     · exact AllGe.single _ _ _ _ _ e.le_refl
-    · refine AllGe.append (allGe_drawBorder t e) (AllGe.flatMap _ _ (fun g _ => ?_))
-      split
-      · refine AllGe.flatMap _ _ (fun r _ => ?_)
-        split
-        · refine AllGe.flatMap _ _ (fun c _ => ?_)
-          split
-          · split
-            · exact allGe_drawBorder _ e
-            · exact AllGe.nil e
-          · exact allGe_attrErr e _
-        · exact allGe_attrErr e _
-      · exact allGe_attrErr e _
+    · exact (allGe_drawBorder t e).append (AllGe.flatMap _ _ (fun g _ => allGe_groupBorders e g))
 
 theorem allGe_drawBlock (n : Node) (e : Env) : AllGe e (drawBlock n e) := by
   unfold drawBlock
@@ -147,6 +165,12 @@ theorem allGe_drawBlock (n : Node) (e : Env) : AllGe e (drawBlock n e) := by
     · exact allGe_decoration _ e
   · exact allGe_attrErr e _
 
+theorem allGe_drawReplaced (a : Attrs) (e : Env) : AllGe e (drawReplaced a e) := by
+  unfold drawReplaced
+  split
+  · exact AllGe.nil e
+  · exact AllGe.single _ _ _ _ _ e.le_refl
+
 theorem allGe_inlBoxWith (a : Attrs) (k : Env → List Item) (e : Env) (hk : AllGe e (k e)) :
     AllGe e (inlBoxWith a k e) := by
   unfold inlBoxWith
@@ -154,7 +178,7 @@ theorem allGe_inlBoxWith (a : Attrs) (k : Env → List Item) (e : Env) (hk : All
   split
   · exact hk
   · split
-    · exact AllGe.single _ _ _ _ _ e.le_refl
+    · exact allGe_drawReplaced a e
     · split
       · exact AllGe.raise e _
       · exact allGe_drawText a e
@@ -169,7 +193,7 @@ theorem allGe_point7With (a : Attrs) (kids : List Node) (k : Env → List Item) 
     (hk : AllGe e (k e)) : AllGe e (point7With a kids k e) := by
   unfold point7With
   split
-  · exact AllGe.single _ _ _ _ _ e.le_refl
+  · exact allGe_drawReplaced a e
   · exact AllGe.ite e _ _ hk
 
 /-- The environment inside a context extends the one it is drawn in. -/
@@ -177,7 +201,7 @@ theorem ctxEnv_ge (a : Attrs) (pov : Bool) (e : Env) : e.le (ctxEnv a pov e) := 
   unfold ctxEnv
   by_cases h1 : (a.isRoot && !pov) = true <;> by_cases h2 : (a.absPos && a.clipProp) = true <;>
     by_cases h3 : a.opacity < 1 <;> cases a.matrix <;>
-    simp [h1, h2, h3, Env.le, Env.clip] <;> omega
+    simp [h1, h2, h3, Env.le, Env.clip]
 
 /-- The body of `draw_stacking_context`: everything is painted inside `ctxEnv`. -/
 theorem allGe_paintBodyWith (pov : Bool) (a : Attrs)
@@ -190,11 +214,11 @@ theorem allGe_paintBodyWith (pov : Bool) (a : Attrs)
   · exact AllGe.nil _
   · simp only
     generalize ctxEnv a pov env = e
-    have hclip : e.le (if (!a.overflowVisible && !a.kind.drawPage) = true then e.clip else e) := by
+    have hclip : e.le (if (!a.overflowVisible && !a.kind.drawPage) = true then e.clip (.overflow a.id) else e) := by
       split
-      · exact e.le_clip
+      · exact e.le_clip _
       · exact e.le_refl
-    generalize (if (!a.overflowVisible && !a.kind.drawPage) = true then e.clip else e) = e1 at hclip
+    generalize (if (!a.overflowVisible && !a.kind.drawPage) = true then e.clip (.overflow a.id) else e) = e1 at hclip
     obtain ⟨h1, h2, h3, h4, h5, h6, h7, _⟩ := h e1
     refine AllGe.append (AllGe.append (AllGe.append ?_ (AllGe.mono hclip ?_)) (allGe_ownOutline a e))
       (h e).2.2.2.2.2.2.2
